@@ -700,7 +700,48 @@ def r7_global_registration_released(ctx):
     ctx.floor('register_global_custom_migrations call sites', n_sites, 1)
 
 
+def r8_deferred_sql_same_scope(ctx):
+    """Creating a model emits its CREATE TABLE and, deferred, the statements
+    that depend on other tables (indexes, foreign keys).  If the deferred
+    part runs in an executor scope opened *after* the scope that created the
+    tables has been left (and committed), a failure in it leaves the tables
+    committed with nothing recorded; the retry sees the tables, treats the
+    models as existing and never creates their indexes."""
+    ctx.rule('R-C07.8')
+    p = ctx.program
+    f = p.func('evolve.evolve_app_task', 'EvolveAppTask.execute_tasks')
+    withs = [w for w in walk_no_nested(f.node) if isinstance(w, ast.With) and
+             any('sql_executor' in unparse(i.context_expr) for i in w.items)]
+    ctx.floor('sql_executor scopes in execute_tasks', len(withs), 1)
+
+    def scope_of(pred):
+        for w in withs:
+            for c in ast.walk(w):
+                if isinstance(c, ast.Call) and pred(c):
+                    return w
+        return None
+    create = scope_of(lambda c: call_name(c) == '_create_models')
+    deferred = scope_of(lambda c: call_name(c) == '_apply_deferred_sql' or (
+        call_name(c) == 'run_sql' and any('deferred' in unparse(a)
+                                          for a in c.args)))
+    if create is None or deferred is None:
+        ctx.info('no separate deferred-SQL step found in execute_tasks')
+        ctx.ok(f, 'model creation and its deferred SQL are not split over '
+               'executor scopes')
+    elif create is deferred:
+        ctx.ok(f, 'deferred SQL runs in the scope that created the models',
+               deferred)
+    else:
+        ctx.finding(f, deferred, 'the deferred SQL of new models (indexes, '
+                    'foreign keys) runs in a second sql_executor scope, '
+                    'opened after the scope that created the tables was '
+                    'committed: a failure there leaves the tables without '
+                    'their indexes and unrecorded, and the retry never '
+                    'creates them', key='deferred-sql-second-scope')
+
+
 def run(ctx):
+    r8_deferred_sql_same_scope(ctx)
     r7_global_registration_released(ctx)
     r6_no_swallow_on_execution_path(ctx)
     r1_exception_forwarding(ctx)
